@@ -48,7 +48,7 @@ DELTAS = ['-1e-3', '-ulp', '0', '+ulp', '+1e-3', '+0.49', '-0.49', 'rand', '+2e-
 
 
 def generate(rng, tier, shard, nshards):
-    n = 1500 if tier == 'quick' else 40000
+    n = 2500 if tier == 'quick' else 50000
     for i in range(n):
         r = rng.random()
         if r < 0.35:
